@@ -245,6 +245,27 @@ def rule_pm1(ctx):
               raised = as_poly(ex.args[0])
         count = as_poly(it.args[0]) if it is not None and it.kind == "range" and len(it.args) == 1 else None
         desc = (sieve, raised, count, head, as_poly(pre) if isinstance(pre, Poly) else None)
+    if desc is None:
+      # the same list written as a comprehension: [p ** floor(log_p(B)) for p in map(mpz, Sieve(S))] - every prime is raised
+      la = L.as_atom()
+      if la is not None and la.kind == "map" and len(la.args) == 3 and isinstance(la.args[0], Poly):
+        elt, bv, src = la.args
+        bvp = Poly.atom(bv) if not isinstance(bv, Poly) else bv
+        sa_ = as_poly(src).as_atom()
+        sieve = None
+        if sa_ is not None and sa_.kind == "map" and len(sa_.args) == 2 and repr(sa_.args[0]) == "ref('gmpy2.mpz')":
+          sv_ = as_poly(sa_.args[1]).as_atom()
+          if sv_ is not None and sv_.kind == "call" and repr(sv_.args[0]) == "lit('ntheory_util:Sieve')":
+            sieve = as_poly(sv_.args[1])
+        el = sym.mk("idx", as_poly(src), bvp)
+        ea_ = elt.as_atom()
+        raised = None
+        if ea_ is not None and ea_.kind == "pow" and as_poly(ea_.args[0]) == el:
+          ex = as_poly(ea_.args[1]).as_atom()
+          if ex is not None and ex.kind == "math.log" and len(ex.args) == 2 and as_poly(ex.args[1]) == el:
+            raised = as_poly(ex.args[0])
+        if sieve is not None:
+          desc = (sieve, raised, sym.mk("len", as_poly(src)), as_poly(src), as_poly(src))
     isdef = any(f_[0] in ("falsy",) and bound_p is not None and isinstance(f_[1], Poly) and f_[1] == bound_p for f_ in e.facts)
     found["default" if isdef else "bound"] = desc
   dflt = found.get("default")
